@@ -167,7 +167,8 @@ INT_T = [
     ("eq_ss", "b", "{i} == {i}"), ("eq_sc", "b", "{i} == {K}"), ("eq_cs", "b", "{K} == {i}"),
     ("ne_ss", "b", "{i} != {i}"), ("ne_sc", "b", "{i} != {K}"), ("ne_cs", "b", "{K} != {i}"),
     ("check_zero", "b", "{i}.check_zero()"), ("check_nonzero", "b", "{i}.check_nonzero()"),
-    ("check_positive", "b", "{i}.check_positive()"),
+    ("check_positive", "b", "{i}.check_positive()"), ("check_positive_w", "b", "{i}.check_positive({w})"),
+    ("lc_if_else_cc", "i", "({b} + 0).if_else({K}, {K})"), ("lc_if_else_ic", "i", "({b} + 0).if_else({i}, {K})"), ("lc_if_else_ci", "i", "({b} * 1).if_else({K}, {i})"),
     ("ite_i", "i", "if_then_else({b}, {i}, {i})"), ("ite_intcond", "i", "if_then_else({z}, {i}, {i}) + 0"),
     ("ite_list", "i", "if_then_else({b}, [{i}, {i}], [{i}, {K}])[1] + 0"), ("linalg_sub", "i", "sum(vector_sub(scalar_mul({i}, [{i}, {K}]), [{i}, {i}]))"),
     ("lin_comb", "i", "lin_comb([{i}, {K}, {b}], [{i}, {i}, {i}])"), ("ite_ic", "i", "if_then_else({b}, {i}, {K})"),
@@ -506,7 +507,7 @@ class Gen:
         return out
 
 
-def mutate_inputs(prog, rnd, mode="valid"):
+def mutate_inputs(prog, rnd, mode="valid", p=None):
     """another input vector for the same program. mode: valid (same classes), wild (any), boundary"""
     lim = (1 << (prog.bl - 1)) - 1
     out = []
@@ -524,7 +525,8 @@ def mutate_inputs(prog, rnd, mode="valid"):
             elif mode == "boundary":
                 nv = rnd.choice([lim, -lim, lim + 1, -lim - 1, (1 << prog.bl) - 1, 1 << prog.bl, -(1 << prog.bl), 0])
             else:
-                nv = rnd.choice([rnd.randint(-4 * lim - 4, 4 * lim + 4), rnd.randint(-(1 << 70), 1 << 70), 0])
+                nv = rnd.choice([rnd.randint(-4 * lim - 4, 4 * lim + 4), rnd.randint(-(1 << 70), 1 << 70), 0] +
+                                ([p, -p, 2 * p, p + rnd.randint(-3, 3)] if p else []))
             out.append(nv)
         elif ctor in ("PrivValBool", "PubValBool"):
             out.append(rnd.randint(0, 1))
